@@ -381,9 +381,15 @@ def as_regex_template(ctx, rep, cl):
     p, A, G = ctx.p, ctx.A, ctx.G
     cls = p.find_class("AsNumberAnonymizer")
     found = []
-    for name, f in cls.methods.items():
+    seen = set()
+    init = cls.methods.get("__init__")
+    order = ([init] if init is not None else []) + [f for n, f in cls.methods.items() if f is not init]
+    for f in order:
+        if f.qualname in ctx.helpers:
+            continue
         for e, ls, path in A.paths(f).all_effects():
-            if e.kind == "call" and ("ext", "re.compile") in set(G.resolve_callee(e.a[1], f)):
+            if e.kind == "call" and ("ext", "re.compile") in set(G.resolve_callee(e.a[1], f)) and id(e.node) not in seen:
+                seen.add(id(e.node))
                 found.append((f, e))
     return cls, found
 
@@ -504,6 +510,8 @@ def c11(ctx, rep):
     fm = cls.methods.get("_generate_as_number_replacement_map")
     writers = []
     for name, g in cls.methods.items():
+        if g.qualname in ctx.helpers:
+            continue
         for e, ls, path in A.paths(g).all_effects():
             if e.kind == "store_attr" and e.b == "as_num_map":
                 writers.append((g, e))
@@ -519,6 +527,7 @@ def c11(ctx, rep):
             tgt, it, conds = v[4][0]
             elt = v[3]
             okc = it[0] == "param" and not conds and elt[1][0] == tgt and M.is_call(elt[1][1]) and elt[1][1][1] == ("attr", SELF, f.name) and elt[1][1][2] == (tgt,)
+            rep.ob("C11.map-built-in-constructor", g.name, g.name == "__init__", "the map is assigned in %s (constructor only)" % g.name, where(g, e.node), nontrivial=False)
             rep.ob("C11.map-built", g.name, okc, "map = %s; expected {n: replacement(n) for n in <all listed numbers>}" % show(v), where(g, e.node), key="C11.map-built|" + g.name)
             ok_w = ok_w or okc
         else:
@@ -526,16 +535,16 @@ def c11(ctx, rep):
     rep.ob("C11.map-writers", cls.name, len(writers) == 1 and ok_w, "writers of the map: %s" % [g.name for g, e in writers], loc_cls)
     if init is not None:
         rep.analysed(init)
-        called = set()
+        nums = ("param", init.params[1])
         for path in A.paths(init).paths:
-            for e, ls in path.calls():
-                if e.a[1][0] == "attr" and e.a[1][1] == SELF:
-                    called.add(e.a[1][2])
-                    if e.a[1][2] in ("_generate_as_number_regex", "_generate_as_number_replacement_map"):
-                        rep.ob("C11.same-list", "__init__:" + e.a[1][2], e.a[2] == (("param", init.params[1]),), "%s receives %s; both the pattern and the map must be built from the same list" % (e.a[1][2], show(e.a[2])), where(init, e.node))
+            if not path.feasible():
+                continue
             salt_st = [e for e, ls in path.stores() if e.kind == "store_attr" and e.b == "salt"]
             rep.ob("C11.salt-field", "__init__", len(salt_st) == 1 and salt_st[0].c == ("param", "salt"), "self.salt = %s" % [show(e.c) for e in salt_st], where(init), key="C11.salt-field|AsNumberAnonymizer.__init__")
-        rep.ob("C11.ctor-builds", "__init__", {"_generate_as_number_regex", "_generate_as_number_replacement_map"} <= called, "constructor builds pattern and map (%s)" % sorted(called), where(init))
+            st = {e.b: e.c for e, ls in path.stores() if e.kind == "store_attr" and e.a == SELF}
+            mp, rxv = st.get("as_num_map"), st.get("as_num_regex")
+            same = mp is not None and rxv is not None and any(x == nums for x in subterms(mp)) and any(x == nums for x in subterms(rxv))
+            rep.ob("C11.same-list", "__init__", same, "the constructor builds both the pattern (%s) and the map (%s) from its list of numbers" % (show(rxv)[:60] if rxv else None, show(mp)[:60] if mp else None), where(init), key="C11.same-list|AsNumberAnonymizer.__init__")
     fa = cls.methods.get("anonymize")
     if fa is not None:
         for path in A.paths(fa).paths:
@@ -560,7 +569,7 @@ def c11(ctx, rep):
         if tmpl is None or sep is None:
             rep.fail("C11.pattern-template", g.name, "pattern expression %s: not TEMPLATE.format(SEP.join(numbers))" % show(arg), w, key="C11.pattern-template|" + g.name)
             continue
-        rep.ob("C11.pattern-join", g.name, sep == "|" and elems == ("param", g.params[1]), "numbers joined with %r over %s" % (sep, show(elems)), w, key="C11.pattern-join|" + g.name)
+        rep.ob("C11.pattern-join", g.name, sep == "|" and elems is not None and elems[0] == "param", "numbers joined with %r over %s" % (sep, show(elems)), w, key="C11.pattern-join|" + g.name)
         try:
             text = tmpl.format("12|345")
             tree, info = rx.parse(text, 0)
@@ -611,6 +620,11 @@ def c11(ctx, rep):
             for path in A.paths(g).paths:
                 for st, ls in path.stores():
                     if st.kind == "store_attr" and st.c == e.a:
+                        reg_field = st.b
+        if reg_field is None and init is not None:
+            for path in A.paths(init).paths:
+                for st, ls in path.stores():
+                    if st.kind == "store_attr" and M.is_call(st.c) and M.callee_name(st.c) == "compile":
                         reg_field = st.b
         for path in A.paths(fg).paths:
             rep.ob("C11.pattern-getter", fg.name, reg_field is not None and path.returned() == ("attr", SELF, reg_field), "getter returns %s; compiled pattern stored in self.%s" % (show(path.returned()), reg_field), where(fg))
